@@ -2,6 +2,7 @@ import ObiVerif.Model.Command
 import ObiVerif.Lemmas.Iter
 import ObiVerif.Props.C03
 import ObiVerif.Props.C04
+import ObiVerif.Lemmas.Command
 /-!
 # C05 — command output is a function of input and options, not of parallelism (property theorems)
 
@@ -72,5 +73,140 @@ theorem count_perm (cnt : Rec → Nat × Nat × Nat) (a b : List Batch) (h : a.P
   intro x _ y _ z
   simp only [count_batch_comm]
   ext <;> simp <;> omega
+
+/-! ## Commands that filter, write JSON / CSV, have two outputs or dispatch -/
+
+/-- the stream leaving the workers, whatever the partition and the delivery order -/
+theorem worker_isStream (f : Rec → List Rec) (v : Nat → List Rec) (n : Nat) (ks : List Nat)
+    (hp : ks.Perm (List.range n)) (arr1 : List Batch)
+    (h1 : arr1.Perm (workerStage f (ks.map fun k => (k, v k)))) :
+    IsStream arr1 n ((inFlat v n).flatMap f) := by
+  rw [workerStage_keyed] at h1
+  have s1 := isStream_of_perm_keyed (fun k => (v k).flatMap f) n ks hp arr1 h1
+  have e : (List.range n).flatMap (fun k => (v k).flatMap f) = (inFlat v n).flatMap f := inFlat_flatMap v n f
+  rwa [e] at s1
+
+/-- **obigrep-like commands** (`MakeISliceWorker f`, then `FilterOn p size`, then the writer): the bytes are
+the texts of the kept results in input order, for every batch partition, every `size > 0`, every delivery
+order between the stages. -/
+theorem filter_command_deterministic (f : Rec → List Rec) (p : Rec → Bool) (size : Nat) (hsize : 0 < size)
+    (fmt : Rec → Command.Bytes) (v : Nat → List Rec) (n : Nat) (ks : List Nat) (hp : ks.Perm (List.range n))
+    (arr1 : List Batch) (h1 : arr1.Perm (workerStage f (ks.map fun k => (k, v k))))
+    (arrW : List Batch) (hW : arrW.Perm (filterOn p size arr1)) :
+    commandOutput fmt arrW = ((((inFlat v n).flatMap f).filter p).map fmt).flatten :=
+  write_isStream fmt (((worker_isStream f v n ks hp arr1 h1).filterOn p size hsize).isStream_of_perm hW)
+
+/-- **JSON output**: one array holding the objects of the results, in input order -/
+theorem json_command_deterministic (f : Rec → List Rec) (obj : Rec → Command.Bytes) (hne : ∀ r, obj r ≠ [])
+    (v : Nat → List Rec) (n : Nat) (ks : List Nat) (hp : ks.Perm (List.range n))
+    (arr1 : List Batch) (h1 : arr1.Perm (workerStage f (ks.map fun k => (k, v k))))
+    (arrW : List Batch) (hW : arrW.Perm arr1) :
+    commandJson obj arrW = openJson ++ joinSep sepJson (((inFlat v n).flatMap f).map obj) ++ closeJson := by
+  have s := worker_isStream f v n ks hp arr1 h1
+  obtain ⟨ks', w, hp', rfl, hF⟩ := s
+  obtain ⟨hk, he⟩ := keyed_of_perm w ks' arrW hW
+  exact json_isStream obj hne ⟨arrW.map (·.1), w, hk.trans hp', he, hF⟩
+
+/-- **CSV output** (obicsv): the header once, then the rows in input order (input of at least one batch) -/
+theorem csv_command_deterministic (f : Rec → List Rec) (header : Command.Bytes) (row : Rec → Command.Bytes)
+    (v : Nat → List Rec) (n : Nat) (hn : 0 < n) (ks : List Nat) (hp : ks.Perm (List.range n))
+    (arr1 : List Batch) (h1 : arr1.Perm (workerStage f (ks.map fun k => (k, v k))))
+    (arrW : List Batch) (hW : arrW.Perm arr1) :
+    commandCsv header row arrW = header ++ (((inFlat v n).flatMap f).map row).flatten := by
+  have s := worker_isStream f v n ks hp arr1 h1
+  obtain ⟨ks', w, hp', rfl, hF⟩ := s
+  obtain ⟨hk, he⟩ := keyed_of_perm w ks' arrW hW
+  exact csv_isStream header row hn ⟨arrW.map (·.1), w, hk.trans hp', he, hF⟩
+
+/-- **Two outputs** (obigrep --save-discarded, obimultiplex -u: `DivideOn`): the first output holds the texts of
+the results satisfying `p`, the second one those of the others, both in input order; `pT`, `pF` are the
+(arbitrary) re-orderings of the two streams on their way to their writers. -/
+theorem divide_command_deterministic (f : Rec → List Rec) (p : Rec → Bool) (size : Nat) (hsize : 0 < size)
+    (fmt : Rec → Command.Bytes) (v : Nat → List Rec) (n : Nat) (ks : List Nat) (hp : ks.Perm (List.range n))
+    (arr1 : List Batch) (h1 : arr1.Perm (workerStage f (ks.map fun k => (k, v k))))
+    (pT pF : List Batch → List Batch) (hT : ∀ l, (pT l).Perm l) (hF : ∀ l, (pF l).Perm l) :
+    divideOutputs p size fmt arr1 pT pF =
+      (((((inFlat v n).flatMap f).filter p).map fmt).flatten,
+       ((((inFlat v n).flatMap f).filter (fun r => !p r)).map fmt).flatten) := by
+  have s := worker_isStream f v n ks hp arr1 h1
+  obtain ⟨ct, cf⟩ := divideOn_chunked p size hsize arr1
+  rw [s.sort.2.2] at ct cf
+  unfold divideOutputs
+  rw [write_isStream fmt (ct.isStream_of_perm (hT _)), write_isStream fmt (cf.isStream_of_perm (hF _))]
+
+/-- **Dispatching command** (obidistribute): the file of class `key` holds the texts of the results of that
+class, in input order -/
+theorem distribute_command_deterministic (f : Rec → List Rec) (cls : Rec → Nat) (size : Nat) (hsize : 0 < size)
+    (fmt : Rec → Command.Bytes) (v : Nat → List Rec) (n : Nat) (ks : List Nat) (hp : ks.Perm (List.range n))
+    (arr1 : List Batch) (h1 : arr1.Perm (workerStage f (ks.map fun k => (k, v k))))
+    (key : Nat) (pK : List Batch → List Batch) (hK : ∀ l, (pK l).Perm l) :
+    distributeFile cls size fmt key arr1 pK =
+      ((((inFlat v n).flatMap f).filter (fun r => cls r == key)).map fmt).flatten := by
+  have s := worker_isStream f v n ks hp arr1 h1
+  have c := distributeKey_chunked cls size hsize key arr1
+  rw [s.sort.2.2] at c
+  unfold distributeFile
+  rw [write_isStream fmt (c.isStream_of_perm (hK _))]
+
+/-- non-vacuity (test on a sample): 3 batches read in the order 1,0,2, kept/discarded by parity, both
+streams reversed before their writers -/
+example : divideOutputs (fun r => r % 2 == 0) 2 (fun r => [r.toUInt8]) ([1, 0, 2].map fun k => (k, exV k))
+      List.reverse List.reverse = ([10, 12, 14], [11, 13]) := by
+  rw [divide_command_deterministic (fun r => [r]) (fun r => r % 2 == 0) 2 (by decide) _ exV 3 [1, 0, 2]
+    (by decide) _ (by simp [workerStage]) _ _ (fun l => List.reverse_perm l) (fun l => List.reverse_perm l)]
+  decide
+
+/-! ## Aggregating commands -/
+
+/-- **Aggregation in a commutative monoid** (obicount, the scalar counters of obisummary): `shares` says which
+worker took which batches and in which order — any sharing of any partition of the input; each worker
+accumulates from `e`, the partial results are merged with `op`: the result is the fold over the input. -/
+theorem aggregate_deterministic {σ : Type} (op : σ → σ → σ) (e : σ) (val : Rec → σ)
+    (hassoc : ∀ a b c, op (op a b) c = op a (op b c)) (hcomm : ∀ a b, op a b = op b a) (hid : ∀ a, op e a = a)
+    (shares : List (List Batch)) (v : Nat → List Rec) (n : Nat)
+    (h : shares.flatten.Perm ((List.range n).map fun k => (k, v k))) :
+    aggOutput (fun a r => op a (val r)) op e shares = (inFlat v n).foldl (fun a r => op a (val r)) e := by
+  have hidr : ∀ a, op a e = a := fun a => by rw [hcomm, hid]
+  unfold aggOutput
+  rw [aggOutput_flat op e val hassoc hidr hid]
+  have hf : (Iter.flatten shares.flatten).Perm (inFlat v n) := by
+    have := h.flatMap_right (fun b : Batch => b.2)
+    have e2 : Iter.flatten ((List.range n).map fun k => (k, v k)) = inFlat v n := flatten_keyed v _
+    unfold Iter.flatten at e2 ⊢
+    rwa [e2] at this
+  apply List.Perm.foldl_eq' hf
+  intro x _ y _ z
+  rw [hassoc, hassoc, hcomm (val x)]
+
+/-- **Map-valued counters** (obisummary): same statement for the maps of counters, `mergeCounters` being
+`sumUpdateIntMap` and a record contributing the (key, increment) pairs `cnt r` -/
+theorem summary_deterministic (cnt : Rec → Counters) (init : Counters)
+    (shares : List (List Batch)) (v : Nat → List Rec) (n : Nat)
+    (h : shares.flatten.Perm ((List.range n).map fun k => (k, v k))) :
+    summaryOutput cnt init shares = mergeCounters init ((inFlat v n).flatMap cnt) := by
+  rw [summaryOutput_flat]
+  apply mergeCounters_perm
+  have := h.flatMap_right (fun b : Batch => b.2.flatMap cnt)
+  unfold items
+  refine this.trans (List.Perm.of_eq ?_)
+  simp only [List.flatMap_map, inFlat, List.flatMap_assoc]
+
+/-- two runs of obisummary on the same records, with different batch partitions, worker counts and
+schedules, print the same counters -/
+theorem summary_config_independent (cnt : Rec → Counters) (init : Counters)
+    (s₁ : List (List Batch)) (v₁ : Nat → List Rec) (n₁ : Nat)
+    (h₁ : s₁.flatten.Perm ((List.range n₁).map fun k => (k, v₁ k)))
+    (s₂ : List (List Batch)) (v₂ : Nat → List Rec) (n₂ : Nat)
+    (h₂ : s₂.flatten.Perm ((List.range n₂).map fun k => (k, v₂ k)))
+    (hin : inFlat v₁ n₁ = inFlat v₂ n₂) :
+    summaryOutput cnt init s₁ = summaryOutput cnt init s₂ := by
+  rw [summary_deterministic cnt init s₁ v₁ n₁ h₁, summary_deterministic cnt init s₂ v₂ n₂ h₂, hin]
+
+/-- non-vacuity (test on a sample): two workers, the second one serving batches 2 then 0 -/
+example : summaryOutput (fun r => [(r % 3, 1), (7, r)]) [] [[(1, exV 1)], [(2, exV 2), (0, exV 0)]]
+    = [(0, 1), (1, 2), (2, 2), (7, 60)] := by
+  rw [summary_deterministic _ _ _ exV 3 (by decide)]
+  decide
+
 
 end ObiVerif.Props.C05
